@@ -64,6 +64,7 @@ type ObResult struct {
 	Detail    string  `json:"detail,omitempty"`
 	model     map[string]string
 	inputs    map[string]string
+	coverUnsat int
 	query     string
 	output    string
 	fn        string
@@ -422,13 +423,10 @@ func (run *checkRun) solveAll(dump string) []*ObResult {
 		}
 		if r.ob.Cover {
 			// must be satisfiable: "sat" is good; "unsat" means the hypotheses are contradictory on this path
+			// vacuous only if EVERY instance is contradictory; an undecided instance counts as possibly reachable
 			switch r.res.Status {
 			case "unsat":
-				if o.Status != "cover-ok-some" {
-					o.Status = "cover-failed"
-				}
-			case "sat":
-				o.Status = "cover-ok-some"
+				o.coverUnsat++
 			case "error":
 				o.Status = "error"
 				o.output = r.res.Output
@@ -466,8 +464,8 @@ func (run *checkRun) solveAll(dump string) []*ObResult {
 	var out []*ObResult
 	for _, n := range order {
 		o := byName[n]
-		if o.Status == "cover-ok-some" {
-			o.Status = "cover-ok"
+		if o.Kind == "cover" && o.Status == "cover-ok" && o.coverUnsat == o.Instances {
+			o.Status = "cover-failed"
 		}
 		out = append(out, o)
 	}
